@@ -192,7 +192,7 @@ func (e *Engine) callFunction(fr *Frame, st *State, fn *ssa.Function, binds []*V
 		e.applyContract(fr, st, ct, fn, fn.Signature, args, pos, k)
 		return
 	}
-	if fn.Blocks != nil && (e.isRepoFunc(fn) || e.inlineWanted(name)) {
+	if fn.Blocks != nil && (e.isRepoFunc(fn) || e.inlineWanted(name) || (fn.Synthetic != "" && strings.HasSuffix(name, "$bound"))) {
 		if fr.depth >= e.cfg.MaxInline {
 			e.errorf("%s: inlining depth exceeded at call to %s", fr.fn, name)
 			return
@@ -354,6 +354,9 @@ func (e *Engine) applyContract(fr *Frame, st *State, ct *Contract, fn *ssa.Funct
 	// well-formedness of results (after `fresh` allocations made by the ensures clauses)
 	for _, v := range rs {
 		st.assume(e.wfVal(st, v.T, v.S))
+	}
+	if ct.Assumed {
+		e.crashCheck(fr, st, "after "+shortName(ct.Key)+" at "+e.posStr(pos))
 	}
 	k(st, packResults(rs, sig))
 }
